@@ -56,7 +56,13 @@ func genCase(t *rapid.T) Case {
 		if rapid.IntRange(0, 9).Draw(t, "flip") == 0 {
 			l = !l
 		}
-		st := Step{B: genTop(t, cfg, l), Policy: model.Policy(rapid.IntRange(0, int(model.NPolicies)-1).Draw(t, "policy"))}
+		st := Step{Policy: model.Policy(rapid.IntRange(0, int(model.NPolicies)-1).Draw(t, "policy"))}
+		if rapid.IntRange(0, 3).Draw(t, "shadow") == 0 {
+			// a source that follows the shape of A and meets its (empty) containers with nil / {} / [] / nothing
+			st.B = shadow(t, c.A, cfg, true)
+		} else {
+			st.B = genTop(t, cfg, l)
+		}
 		if rapid.IntRange(0, 2).Draw(t, "assembled") == 0 {
 			st.Asm = rapid.Uint64().Draw(t, "asm") | 1<<63
 		}
@@ -208,6 +214,10 @@ func runCase(c Case, r *runlog.R) error {
 				keptSrc = append(keptSrc, kept{sc, b, st.Policy})
 				r.ClassIf(st.Asm != 0 && b.K == "obj", "*Config source assembled with SetChild (fresh and adopted sections)")
 			}
+			keep, err := shapesBefore(cfg, b, st.Policy)
+			if err != nil {
+				return fmt.Errorf("step %d: %v", si, err)
+			}
 			err = uc.Safe("Merge", func() error { return cfg.Merge(src, uc.PolicyOpts(st.Policy)...) })
 			if err != nil {
 				return fmt.Errorf("step %d: Merge(%s source, %v) failed: %v", si, reprNames[k], st.Policy, err)
@@ -215,6 +225,14 @@ func runCase(c Case, r *runlog.R) error {
 			got, err := uc.Dump(cfg)
 			if err != nil {
 				return fmt.Errorf("step %d: unpacking the result failed: %v", si, err)
+			}
+			if err := checkShapes(cfg, got, keep); err != nil {
+				return fmt.Errorf("step %d (%v, %s source): %v", si, st.Policy, reprNames[k], err)
+			}
+			if k == 0 {
+				for _, e := range keep {
+					r.Class("empty " + e.shape + " of A met with " + e.with)
+				}
 			}
 			if !canon.EqualSplit(got, want) {
 				return fmt.Errorf("step %d (%v, %s source): result differs from the model\n got  %s\n want %s",
@@ -286,12 +304,12 @@ func runCase(c Case, r *runlog.R) error {
 
 var subModel = runlog.Register(&runlog.Sub[Case]{
 	Name: "merge-model",
-	Rule: "chains A<-B1..Bk (k<=3) of random trees over keys {a,b,c,d,0,1}, each merge under one of the 5 global policies, B given as generic map, in a mixed Go representation (structs, typed maps/slices, pointers, *Config) and as *Config; result compared with the reference merge model after every step; at the end every *Config source object is merged a second time (and must still hold its own data). Non-trivial: two consecutive operands share a path where both are non-empty containers or their kinds differ (container vs other). Distinct: hash of the whole case.",
+	Rule: "chains A<-B1..Bk (k<=3) of random trees over keys {a,b,c,d,0,1}, each merge under one of the 5 global policies, B given as generic map, in a mixed Go representation (structs, typed maps/slices, pointers, *Config) and as *Config; a quarter of the sources follow the shape of A and meet its containers (the empty ones in particular) with nil, {}, [], nothing or more data; result compared with the reference merge model after every step (canonical comparison: nil = {} = []); in addition every EMPTY container the destination holds right before a merge, below the top level (shape [] if unpacking shows an empty list there, {} otherwise; classes 'empty <shape> of A met with absent/nil/empty'), which the source reaches with nothing, a nil or an empty container of either kind (not under a dictionary or list that the policy replaces; shifted by prepend) must have the same shape afterwards - no null, no container of the other kind; at the end every *Config source object is merged a second time (and must still hold its own data). Non-trivial: two consecutive operands share a path where both are non-empty containers or their kinds differ (container vs other). Distinct: hash of the whole case.",
 	Gen:  genCase,
 	Run:  runCase,
 })
 
-func TestMergeModel(t *testing.T) { subModel.Check(t, 120000, 6000000) }
+func TestMergeModel(t *testing.T) { subModel.Check(t, 80000, 6000000) }
 
 // ---------------------------------------------------------------------------
 // algebraic laws stated by the property, asserted directly (no model)
@@ -341,6 +359,10 @@ func runLaw(lc LawCase, r *runlog.R) error {
 	// 1. merging an empty config is the identity, in both directions, under every policy
 	for _, empty := range []interface{}{map[string]interface{}{}, []interface{}{}, ucfg.New(), struct{}{}} {
 		c, _ := ucfg.NewFrom(lc.X.Go())
+		keep, err := shapesBefore(c, gen.Obj(), lc.Policy)
+		if err != nil {
+			return err
+		}
 		if err := uc.Safe("Merge", func() error { return c.Merge(empty, opts...) }); err != nil {
 			return fmt.Errorf("X.Merge(empty %T): %v", empty, err)
 		}
@@ -348,6 +370,11 @@ func runLaw(lc LawCase, r *runlog.R) error {
 		if err != nil {
 			return err
 		}
+		// the identity keeps the empty containers of X what they are (the canonical comparison cannot see them)
+		if err := checkShapes(c, got, keep); err != nil {
+			return fmt.Errorf("X.Merge(empty %T, %v): %v", empty, lc.Policy, err)
+		}
+		r.ClassIf(len(keep) > 0, "X holds empty containers (must survive the identity merges)")
 		if !canon.EqualSplit(got, want) {
 			return fmt.Errorf("X.Merge(empty %T, %v) changed X:\n got  %s\n want %s", empty, lc.Policy, canon.Show(got), canon.Show(want))
 		}
@@ -378,11 +405,18 @@ func runLaw(lc LawCase, r *runlog.R) error {
 		}
 		c2, _ := ucfg.NewFrom(lc.X.Go())
 		cp, _ := ucfg.NewFrom(lc.X.Go())
+		keep, err := shapesBefore(c2, lc.X, lc.Policy)
+		if err != nil {
+			return err
+		}
 		if err := uc.Safe("Merge", func() error { return c2.Merge(cp, opts...) }); err != nil {
 			return fmt.Errorf("X.Merge(copy of X): %v", err)
 		}
 		if got, err = uc.Dump(c2); err != nil {
 			return err
+		}
+		if err := checkShapes(c2, got, keep); err != nil {
+			return fmt.Errorf("X.Merge(copy of X, %v): %v", lc.Policy, err)
 		}
 		if !canon.EqualSplit(got, want) {
 			return fmt.Errorf("X.Merge(copy of X, %v) changed X:\n got  %s\n want %s", lc.Policy, canon.Show(got), canon.Show(want))
@@ -494,11 +528,11 @@ func runLaw(lc LawCase, r *runlog.R) error {
 
 var subLaws = runlog.Register(&runlog.Sub[LawCase]{
 	Name: "merge-laws",
-	Rule: "random tree X and list Y: X.Merge(empty) and empty.Merge(X) are identities for four kinds of empty source and every policy; X.Merge(X) (same pointer and equal copy) is the identity under default/replace/replace-arr, and under every policy X.Merge(X) and X.Merge(config sharing sections with X by SetChild) equal the merge of an independent copy; under append/prepend two lists nested under a random key path combine to A++B / B++A element for element. Non-trivial: both list operands non-empty (append/prepend) or X nested at least two levels (other policies).",
+	Rule: "random tree X and list Y: X.Merge(empty) and empty.Merge(X) are identities for four kinds of empty source and every policy (X.Merge(empty) also keeps every empty container of X an empty list resp. dictionary); X.Merge(X) (same pointer and equal copy) is the identity under default/replace/replace-arr (the equal copy also keeps the empty containers that are not below a replaced dictionary or list), and under every policy X.Merge(X) and X.Merge(config sharing sections with X by SetChild) equal the merge of an independent copy; under append/prepend two lists nested under a random key path combine to A++B / B++A element for element. Non-trivial: both list operands non-empty (append/prepend) or X nested at least two levels (other policies).",
 	Gen:  genLaw,
 	Run:  runLaw,
 })
 
-func TestMergeLaws(t *testing.T) { subLaws.Check(t, 40000, 2000000) }
+func TestMergeLaws(t *testing.T) { subLaws.Check(t, 30000, 2000000) }
 
 func TestReplay(t *testing.T) { runlog.ReplayMain(t) }
